@@ -25,7 +25,7 @@ class Formation(Harness):
                  F + "_find_neighbouring_candidates", F + "_find_neighbouring_protoclusters",
                  "antismash.common.secmet.features.candidate_cluster.structures:CandidateCluster.__init__",
                  "antismash.common.secmet.features.cdscollection:CDSCollection.__lt__"]
-    bound = ("Pn <= 3 (quick) / 4 (thorough) protoclusters with symbolic core inside symbolic extent, distinct products, every pattern "
+    bound = ("Pn <= 3 (quick) / 4 (thorough) protoclusters (plus unit layouts of 5 / 7 protoclusters in which the two members of a hybrid pair have identical coordinates) with symbolic core inside symbolic extent, distinct products, every pattern "
              "of 'shares a defining gene' over pairs (realised by a gene placed inside both cores), every supply order; linear records, "
              "and circular records with one protocluster whose extent (and optionally core) spans the origin")
     outside = "Pn > 4; more than one origin-spanning protocluster; equal products"
@@ -77,18 +77,40 @@ class Formation(Harness):
                     # first protocluster's extent spans the origin (core simple or spanning)
                     out.append({"pn": pn, "share": [list(p) for p in share], "circ": True, "shapes": ["oe"] + ["s"] * (pn - 1), "names": names})
                     out.append({"pn": pn, "share": [list(p) for p in share], "circ": True, "shapes": ["oc"] + ["s"] * (pn - 1), "names": names})
+        # larger structures with a symmetry reduction: the two protoclusters of a hybrid pair have identical coordinates,
+        # so the pair behaves as one unit: two hybrids + a lone protocluster (5), three hybrids + a lone one (7, thorough)
+        units = [[2, 2, 1]] if tier == "quick" else [[2, 2, 1], [2, 1, 2], [2, 2, 2, 1]]
+        for sizes in units:
+            twin, share, idx = [], [], 0
+            for size in sizes:
+                twin.append(None)
+                if size == 2:
+                    twin.append(idx)
+                    share.append([idx, idx + 1])
+                idx += size
+            pn = idx
+            out.append({"pn": pn, "share": share, "circ": False, "shapes": ["s"] * pn, "names": ["p%d" % i for i in range(pn)],
+                        "twin": twin, "units": True, "tight": tier == "quick"})
         return out
 
     def vars(self, var):
         d = {"n": "int", "x": "int"}
         for i, sh in enumerate(var["shapes"]):
+            if self.src(var, i) != i:
+                continue
             d.update(shape_vars("e%d" % i, "o" if sh in ("oe", "oc") else "s"))
             d.update(shape_vars("c%d" % i, "o" if sh == "oc" else "s"))
         for a, b in var["share"]:
             d.update(shape_vars("g%d%d" % (a, b), "s"))
         return d
 
+    def src(self, var, i):
+        """protocluster whose coordinate variables i uses (twins of a hybrid pair share coordinates)"""
+        twin = var.get("twin")
+        return i if not twin or twin[i] is None else twin[i]
+
     def parts(self, var, v, i):
+        i = self.src(var, i)
         sh = var["shapes"][i]
         ext = model_parts("e%d" % i, "o" if sh in ("oe", "oc") else "s", v)
         core = model_parts("c%d" % i, "o" if sh == "oc" else "s", v)
@@ -98,6 +120,8 @@ class Formation(Harness):
         n = v["n"]
         c = [0 <= v["x"], v["x"] < n]
         for i, sh in enumerate(var["shapes"]):
+            if self.src(var, i) != i:
+                continue
             c.append(shape_pre("e%d" % i, "o" if sh in ("oe", "oc") else "s", v, n))
             c.append(shape_pre("c%d" % i, "o" if sh == "oc" else "s", v, n))
             core, ext = self.parts(var, v, i)
@@ -105,6 +129,12 @@ class Formation(Harness):
             if sh == "oc":
                 # both halves of the core inside the matching halves of the extent
                 c.append(L.And(ext[0][0] <= core[0][0], core[1][1] <= ext[1][1]))
+        if var.get("tight"):
+            # quick tier: in the unit layouts only the first unit has a neighbourhood, the others have extent == core
+            for i in range(1, var["pn"]):
+                if self.src(var, i) == i and self.src(var, i) != 0:
+                    core, ext = self.parts(var, v, i)
+                    c.append(L.And(core[0][0] == ext[0][0], core[0][1] == ext[0][1]))
         for a, b in var["share"]:
             c.append(shape_pre("g%d%d" % (a, b), "s", v, n))
             g = model_parts("g%d%d" % (a, b), "s", v)
@@ -115,8 +145,9 @@ class Formation(Harness):
     def build_protos(self, var, v):
         protos = []
         for i, sh in enumerate(var["shapes"]):
-            core = build("c%d" % i, "o" if sh == "oc" else "s", v)
-            ext = build("e%d" % i, "o" if sh in ("oe", "oc") else "s", v)
+            j = self.src(var, i)
+            core = build("c%d" % j, "o" if sh == "oc" else "s", v)
+            ext = build("e%d" % j, "o" if sh in ("oe", "oc") else "s", v)
             protos.append(Protocluster(core, ext, tool="test", product=var["names"][i], cutoff=1, neighbourhood_range=0,
                                        detection_rule="r"))
         for a, b in var["share"]:
@@ -128,8 +159,12 @@ class Formation(Harness):
     def run(self, var, v):
         outs = []
         pn = var["pn"]
-        perms = list(itertools.permutations(range(pn))) if pn <= 2 or (pn == 3 and var.get("all_orders")) else \
-            [tuple(range(pn)), tuple(reversed(range(pn))), ((2, 0, 3, 1) if pn == 4 else (1, 2, 0))]
+        if var.get("units"):
+            perms = [tuple(range(pn))]
+        elif pn <= 2 or (pn == 3 and var.get("all_orders")):
+            perms = list(itertools.permutations(range(pn)))
+        else:
+            perms = [tuple(range(pn)), tuple(reversed(range(pn))), ((2, 0, 3, 1) if pn == 4 else (1, 2, 0))]
         for perm in perms:
             protos = self.build_protos(var, v)
             cands = create_candidates_from_protoclusters([protos[i] for i in perm],
